@@ -51,7 +51,10 @@ Verdict(r) ==
       Pos(x) == IF x.by = "key" THEN x.i ELSE sh + x.i
       Numeric(x) == IF x.by = "key" THEN NumericKey(r.keys[x.i]) ELSE TRUE
       Dir(x, c) == IF x.desc THEN 0 - c ELSE c
-      RowCmp(i, k) == LET c1 == Dir(o[1], CellCmp(rows[i][Pos(o[1])], rows[k][Pos(o[1])], Numeric(o[1]))) IN
+      \* (ORDER BY an aggregate that is not selected: the rows name their groups, the judge computes the sums)
+      HSum(i) == SumOver(r, G(got[i]), "size", FALSE)
+      RowCmp(i, k) == IF o[1].by = "hsum" THEN Dir(o[1], Cmp(HSum(i), HSum(k))) ELSE
+                      LET c1 == Dir(o[1], CellCmp(rows[i][Pos(o[1])], rows[k][Pos(o[1])], Numeric(o[1]))) IN
                       IF c1 # 0 \/ Len(o) = 1 THEN c1 ELSE Dir(o[2], CellCmp(rows[i][Pos(o[2])], rows[k][Pos(o[2])], Numeric(o[2])))
       sorted == o = <<>> \/ \A i \in 1 .. Len(rows) - 1 : RowCmp(i, i + 1) <= 0
       y == IF r.obs.q.timed_out THEN "timeout"
